@@ -100,6 +100,8 @@ struct CostProgram
     int pert_index = 0;    // duration index / waypoint row / (unused)
     int pert_coord = 0;    // coordinate
     double pert_delta = 0; // added to the reported gradient component
+    // ---- a running cost that throws std::out_of_range in segment throw_at_seg (after its first sample); -1 = never
+    int throw_at_seg = -1;
     // ---- recording
     mutable Recorder *rec = nullptr;
 
